@@ -121,15 +121,23 @@ pub fn gen(tier: Tier, rng: &mut Rng64, out: &mut Out) {
         for _ in 0..k { run("C11.rand", &[b.clone(), flips_for(rng, 4)], out); }
     }
     // --- random functions over 5..8 variables (density classes, structured families)
-    let rounds = if thorough { 60000 } else { 2500 };
+    let rounds = if thorough { 150000 } else { 2500 };
     for _ in 0..rounds {
         let n = 5 + rng.below(4) as usize;
         let b = fmt_bdd(&random_bdd(rng, n));
         run("C11.sel", &[b.clone()], out);
         for _ in 0..2 { run("C11.rand", &[b.clone(), flips_for(rng, n)], out); }
     }
+    // --- larger random functions (9..10 variables: diagrams of up to a few hundred nodes)
+    let rounds = if thorough { 10000 } else { 100 };
+    for _ in 0..rounds {
+        let n = 9 + rng.below(2) as usize;
+        let b = fmt_bdd(&random_bdd(rng, n));
+        run("C11.sel", &[b.clone()], out);
+        run("C11.rand", &[b.clone(), flips_for(rng, n)], out);
+    }
     // --- single cubes and single valuations (and near misses) over 1..10 variables
-    let rounds = if thorough { 8000 } else { 600 };
+    let rounds = if thorough { 30000 } else { 600 };
     for _ in 0..rounds {
         let n = 1 + rng.below(10) as usize;
         let size = 1usize << n;
@@ -142,7 +150,7 @@ pub fn gen(tier: Tier, rng: &mut Rng64, out: &mut Out) {
         run("C11.rand", &[b.clone(), flips_for(rng, n)], out);
     }
     // --- few-node diagrams over 10..60 variables with level gaps
-    let rounds = if thorough { 60000 } else { 3000 };
+    let rounds = if thorough { 150000 } else { 3000 };
     for i in 0..rounds {
         // the first third stays at n <= 12 so that the brute-force predicate applies
         let n = if i % 3 == 0 { 10 + rng.below(3) as usize } else { 10 + rng.below(51) as usize };
